@@ -526,20 +526,26 @@ func c13EnumCase(t *testing.T, out *zzverif.Out, rels []string, r *zzverif.Rng) 
 		}
 	}
 	cop := "mname " + zzverif.Hex([]byte(ds))
-	if cerr != nil {
-		out.Count("copy_refused")
-		if len(fresh) > 0 {
-			out.L2("copy-escapes", cop, "a refused CopyModel created "+strings.Join(fresh, ","))
+	if !dst.IsValid() {
+		out.Count("copy_refused_invalid")
+		if cerr == nil || len(fresh) > 0 {
+			out.L2("copy-escapes", cop, fmt.Sprintf("CopyModel to an invalid name: err=%v, created %s", cerr, strings.Join(fresh, ",")))
 		}
 		return
 	}
-	out.Count("copy_done")
+	// whatever happens (success, or a late failure such as a path component that is a file), the only things that may
+	// appear are manifests/<dst.Filepath()>, its parent directories and the store's own blobs directory
 	want := filepath.Join(manifests, dst.Host, dst.Namespace, dst.Model, dst.Tag)
 	for _, f := range fresh {
 		if f != want && !strings.HasPrefix(want, f+"/") && f != filepath.Join(models, "blobs") {
 			out.L2("copy-escapes", cop, "CopyModel created "+f+", want only "+want)
 		}
 	}
+	if cerr != nil {
+		out.Count("copy_refused")
+		return
+	}
+	out.Count("copy_done")
 	if why := zzverif.C13Confined(models, "manifests", want, 4); why != "" {
 		out.L2("copy-escapes", cop, why+" path="+want)
 	}
